@@ -127,7 +127,7 @@ func sentinelBuilderCase(run *ev.Run, i int) {
 		default:
 			areq = errReqSS{base, st.ss}
 		}
-		exp := &expect{Case: caseIdx, Front: "builder-sentinel", Who: st.fn, RedirectURI: st.uri, Want: want, AllowExtra: map[string]bool{},
+		exp := &expect{Case: caseIdx, Front: "builder-sentinel", Who: st.fn, RedirectURI: st.uri, Want: want, AllowExtra: map[string]bool{}, Tag: "builder-sentinel:" + st.fn, TypeDefault: typeDefault(st.rt),
 			Params: []pair{{"error", code}, {"error_description", desc}, {"state", st.state}, {"session_state", st.ss}}}
 		exp.Input = map[string]any{"sentinel_error": map[string]any{"error": code, "error_description": desc}, "history": stepsJSON(steps, k, false), "judged_step": k}
 		exp.Dim = fmt.Sprintf("s|b|%s|step=%d|%s|%s|%s|ss=%s|st=%s", st.fn, k, st.rt, orDash(string(st.mode)), st.shape, st.ssKind, st.stateKind)
@@ -174,7 +174,7 @@ func sentinelE2ECase(run *ev.Run, j int, router int) {
 	rn := opdrv.RouterNames[router]
 	code, desc, steps := planSentinel(r, true)
 	sentinel := newOIDCError(code, desc)
-	w, err := newE2EWorld("", nil)
+	w, err := newE2EWorld("", nil, false)
 	if err != nil {
 		run.HarnessBug("cannot build world: " + err.Error())
 		return
@@ -194,7 +194,7 @@ func sentinelE2ECase(run *ev.Run, j int, router int) {
 			expSS = "" // *oidc.AuthRequest carries no session state
 			w.faults.arm("CreateAuthRequest", mk)
 		}
-		exp := &expect{Case: caseIdx, Front: "e2e-sentinel", Who: rn + "/" + st.phase, RedirectURI: st.uri, Want: string(st.mode), AllowExtra: map[string]bool{},
+		exp := &expect{Case: caseIdx, Front: "e2e-sentinel", Who: rn + "/" + st.phase, RedirectURI: st.uri, Want: string(st.mode), AllowExtra: map[string]bool{}, Tag: "e2e-sentinel:" + rn + ":" + st.phase, TypeDefault: typeDefault(st.rt),
 			Params: []pair{{"error", code}, {"error_description", desc}, {"state", st.state}, {"session_state", expSS}}}
 		exp.Input = map[string]any{"router": rn, "sentinel_error": map[string]any{"error": code, "error_description": desc}, "history": stepsJSON(steps, k, true), "judged_step": k}
 		exp.Dim = fmt.Sprintf("s|e|%s|step=%d|%s|%s|%s|%s|ss=%s|st=%s", rn, k, st.phase, st.rt, orDash(string(st.mode)), st.method, st.ssKind, st.stateKind)
